@@ -362,6 +362,10 @@ def run_mode_case(case):
     with symbolic_mode():
         ctx_query = an(entity(ctx_var, ctx_var.n >= 0))
     probe_var = let(world.A, domain=objs)
+    the_var = let(world.A, domain=objs)
+    with symbolic_mode():
+        from entity_query_language import the as _the
+        the_query = _the(entity(the_var, the_var.n == 1))
     blocks, its = [], {}
 
     def observe():
@@ -416,6 +420,8 @@ def run_mode_case(case):
                 del its[ev["i"]]
             elif op == "drain":
                 list(its[ev["i"]])
+            elif op == "evalthe":
+                the_query.evaluate()
             else:
                 raise ValueError(op)
         except Exception as e:
